@@ -255,22 +255,20 @@ Inductive castle_kind (p:pos) (c:color) (m:move) : Prop :=
 Lemma castle_moves_kind p c m : In m (castle_moves p c) -> castle_kind p c m.
 Proof.
   unfold castle_moves.
-  destruct (has p (home_rank c * 8 + 4) King c) eqn:Hk; cbn [andb]; [|intros []].
-  destruct (negb (attacked_by p (opp c) (home_rank c * 8 + 4))); [|intros []].
+  match goal with |- In _ (if ?b then _ else _) -> _ => destruct b eqn:E0 end; [|intros []].
+  apply andb_prop in E0 as [Hk _].
   intro H. apply in_app_or in H as [H|H].
-  - destruct (can_k p c) eqn:E1; cbn [andb] in H; [|destruct H].
-    destruct (has p (home_rank c * 8 + 7) Rook c) eqn:E2; cbn [andb] in H; [|destruct H].
-    destruct (occ p (home_rank c * 8 + 5)) eqn:E3; cbn [andb negb] in H; [destruct H|].
-    destruct (occ p (home_rank c * 8 + 6)) eqn:E4; cbn [andb negb] in H; [destruct H|].
-    match type of H with In _ (if ?b then _ else _) => destruct b end; [|destruct H].
-    destruct H as [<-|[]]. apply CK_king; auto.
-  - destruct (can_q p c) eqn:E1; cbn [andb] in H; [|destruct H].
-    destruct (has p (home_rank c * 8) Rook c) eqn:E2; cbn [andb] in H; [|destruct H].
-    destruct (occ p (home_rank c * 8 + 1)) eqn:E3; cbn [andb negb] in H; [destruct H|].
-    destruct (occ p (home_rank c * 8 + 2)) eqn:E4; cbn [andb negb] in H; [destruct H|].
-    destruct (occ p (home_rank c * 8 + 3)) eqn:E5; cbn [andb negb] in H; [destruct H|].
-    match type of H with In _ (if ?b then _ else _) => destruct b end; [|destruct H].
-    destruct H as [<-|[]]. apply CK_queen; auto.
+  - match type of H with In _ (if ?b then _ else _) => destruct b eqn:E end; [|destruct H].
+    destruct H as [<-|[]].
+    apply andb_prop in E as [E _]. apply andb_prop in E as [E _].
+    apply andb_prop in E as [E E4]. apply andb_prop in E as [E E3]. apply andb_prop in E as [E1 E2].
+    apply negb_true_iff in E3, E4. apply CK_king; auto.
+  - match type of H with In _ (if ?b then _ else _) => destruct b eqn:E end; [|destruct H].
+    destruct H as [<-|[]].
+    apply andb_prop in E as [E _]. apply andb_prop in E as [E _].
+    apply andb_prop in E as [E E5]. apply andb_prop in E as [E E4]. apply andb_prop in E as [E E3].
+    apply andb_prop in E as [E1 E2].
+    apply negb_true_iff in E3, E4, E5. apply CK_queen; auto.
 Qed.
 
 (** a man that moves like its attack pattern, not onto a man of its own side *)
@@ -361,7 +359,7 @@ Qed.
 
 Lemma legal_dom p m : In m (legal_moves p) -> src m < 64 /\ dst m < 64 /\ dst m <> src m.
 Proof.
-  intro H. apply legal_kind in H as [Hs Hk]. split; [exact Hs|]. apply move_kind_dst; assumption.
+  intro H. apply legal_kind in H as [Hs Hk]. split; [exact Hs|]. apply (move_kind_dst p m); assumption.
 Qed.
 
 (** ** castling, en passant and double pushes among the legal moves *)
